@@ -77,6 +77,14 @@ var TrustedTotal = map[string]string{
 	"crypto/aes.NewCipher":               "returns KeySizeError instead of panicking",
 	"github.com/jacobsa/crypto/cmac.New": "returns an error for a bad key length",
 	"(crypto/cipher.Block).BlockSize":    "constant of the cipher",
+	"sync/atomic.AddUint64":              "total on a non-nil, aligned address (package-level variables are)",
+	"sync/atomic.AddUint32":              "total on a non-nil address",
+	"sync/atomic.AddInt64":               "total on a non-nil, aligned address (package-level variables are)",
+	"sync/atomic.AddInt32":               "total on a non-nil address",
+	"sync/atomic.LoadUint64":             "total on a non-nil, aligned address",
+	"sync/atomic.LoadUint32":             "total on a non-nil address",
+	"sync/atomic.LoadInt64":              "total on a non-nil, aligned address",
+	"sync/atomic.LoadInt32":              "total on a non-nil address",
 	"(hash.Hash).Write":                  "never fails, accepts any length",
 	"(hash.Hash).Sum":                    "appends to its argument",
 	// locks
@@ -155,6 +163,9 @@ func (e *Engine) noteExtern(name, class, reason string) {
 
 // externObligations: preconditions of callees outside the module.
 func (e *Engine) externObligations(a *FuncAn, call *ssa.Call, add func(ssa.Instruction, string, string, []Goal) *Obl, out *[]*Obl) {
+	if a.Converged && a.in[call.Block()] == nil {
+		return // the block is never reached (a branch on a false constant): nothing is called
+	}
 	c := call.Common()
 	var names []string
 	if c.IsInvoke() {
